@@ -215,8 +215,9 @@ class TwoFingerIntersector(Intersector):
         trace0 = traces[0]
         trace1 = traces[1]
 
-        # Throw away the header, since we don't need it
-        if not self.started:
+        # Throw away the header, since we don't need it (a batch consumed before
+        # the traced rank was ever iterated is empty: it has no header yet)
+        if not self.started and trace0:
             self.started = True
 
             self.num_ranks = (len(trace0[0]) - 1) // 2
